@@ -8,11 +8,13 @@ fail=0
 for d in seeded/*/; do
   id=$(basename "$d")
   prop=$(python3 -c "import json;print(json.load(open('$d/meta.json'))['breaks_property'])")
+  # a seed counts as caught when the check of the property it breaks fires, or (for a change whose mechanism belongs to another
+  # property's clause, recorded in meta.json as decided_by) when that check fires
+  also=$(python3 -c "import json;print(' '.join(json.load(open('$d/meta.json')).get('decided_by', [])))")
   fired=$(sed -n 's/.*check \(C[0-9]*\) -> exit 1.*/\1/p' "$tmp/$id.out" | sort -u | tr '\n' ' ')
-  case " $fired" in
-    *" $prop "*) echo "$id: property $prop caught (checks firing: $fired)";;
-    *) echo "$id: property $prop NOT caught by its own check (firing: $fired)"; fail=1;;
-  esac
+  ok=0
+  for want in $prop $also; do case " $fired" in *" $want "*) ok=1;; esac; done
+  if [ $ok -eq 1 ]; then echo "$id: property $prop caught (checks firing: $fired)"; else echo "$id: property $prop NOT caught (expected one of: $prop $also; firing: $fired)"; fail=1; fi
 done
 rm -rf "$tmp"
 exit $fail
